@@ -66,6 +66,11 @@ pub fn run(ctx: &Ctx, out: &mut Out) {
                 continue;
             }
         };
+        if has_mixed_trait_cycle(&program) {
+            out.count("program_with_mixed_cycle_skipped");
+            continue;
+        }
+        let two_growing = crate::ops::fp::growing_wrappers(&text) >= 2;
         out.count("programs");
         if graph {
             // recursive solver's fixed-point framework vs its Lean model on the plain history of the
@@ -97,6 +102,10 @@ pub fn run(ctx: &Ctx, out: &mut Out) {
                 out.count(&format!("graph_shape_{}", shape));
             }
             for (name, choice) in solver_choices() {
+                if name == "recursive" && two_growing {
+                    out.count("recursive_skipped_two_growing_impls");
+                    continue;
+                }
                 let budget = if graph { Some(if name == "slg" { 2500 } else { 200_000 }) } else { None };
                 if !ctx.inflight(&format!("{} | {} | goal {{ {} }}", name, text.replace('\n', " "), gtext)) {
                     out.count("skipped_crashed_earlier");
